@@ -248,9 +248,10 @@ type Store struct {
 	users    map[string]*User
 	tokens   map[string][]string
 	B        *Backend
-	OneTime  bool // hand out UserOT (TOTP replay protection)
-	NoArb    bool // hand out users that do not implement authboss.ArbitraryUser
-	EmailPID bool // PID is the e-mail address
+	OneTime  bool           // hand out UserOT (TOTP replay protection)
+	NoArb    bool           // hand out users that do not implement authboss.ArbitraryUser
+	Zone     *time.Location // the driver's location: instants come back from Load in this zone (same instants), as database drivers do
+	EmailPID bool           // PID is the e-mail address
 }
 
 func NewStore(b *Backend) *Store {
@@ -258,6 +259,13 @@ func NewStore(b *Backend) *Store {
 }
 
 func (s *Store) wrap(u *User) authboss.User {
+	if s.Zone != nil {
+		for _, t := range []*time.Time{&u.Locked, &u.LastAttempt, &u.RecoverExpiry} {
+			if !t.IsZero() {
+				*t = t.In(s.Zone)
+			}
+		}
+	}
 	switch {
 	case s.OneTime && s.NoArb:
 		return UserNAOT{UserOT{u}}
@@ -309,8 +317,18 @@ func (s *Store) Save(ctx context.Context, user authboss.User) error {
 	if _, ok := s.users[u.PID]; !ok {
 		return authboss.ErrUserNotFound
 	}
-	s.users[u.PID] = u.clone()
+	s.users[u.PID] = u.clone().utc()
 	return nil
+}
+
+// utc: the database keeps instants; whatever zone a value was written in, it reads back as the same instant.
+func (u *User) utc() *User {
+	for _, t := range []*time.Time{&u.Locked, &u.LastAttempt, &u.RecoverExpiry} {
+		if !t.IsZero() {
+			*t = t.UTC()
+		}
+	}
+	return u
 }
 
 func (s *Store) New(ctx context.Context) authboss.User {
@@ -327,7 +345,7 @@ func (s *Store) Create(ctx context.Context, user authboss.User) error {
 	if _, ok := s.users[u.PID]; ok {
 		return authboss.ErrUserFound
 	}
-	s.users[u.PID] = u.clone()
+	s.users[u.PID] = u.clone().utc()
 	return nil
 }
 
